@@ -130,6 +130,10 @@ def dumpstructs(ctx, n):
                 ctx.violation("dumpstruct", f"dumpstruct-raises:{type(e).__name__}",
                               engine.case_detail(case, cfg=cfgd, data=inp, color=color, error=lib.exc_sig(e)))
                 continue
+            if not color and "\x1b" in out:
+                ctx.violation("dumpstruct", "dumpstruct-without-colour-contains-colour-codes",
+                              engine.case_detail(case, cfg=cfgd, data=inp, color=color, got=out))
+                continue
             plain = ANSI.sub("", out)
             want_hex = ref_hexdump(body)
             if want_hex not in plain:
@@ -163,6 +167,42 @@ def dumpstructs(ctx, n):
             except Exception as e:  # noqa: BLE001
                 ctx.violation("dumpstruct", f"dumpstruct-class-form-raises:{type(e).__name__}",
                               engine.case_detail(case, cfg=cfgd, data=inp, color=color, error=lib.exc_sig(e)))
+
+
+def dumpstruct_forms(ctx):
+    """Shapes the generator does not produce: a structure of more than one hex dump line without colour, an enum type
+    with a member named `anonymous`, a structure that is a member of a union (handed out through a proxy)."""
+    from dissect.cstruct import dumpstruct
+
+    text = ("enum E : uint8 { anonymous = 1, other = 2 };\nstruct s { E e; uint8 x; char pad[30]; };\n"
+            "struct inn { uint8 a; uint16 b; };\nunion U { inn i; uint8 v; };\nstruct holder { uint8 h; U u; };")
+    for compiled in (True, False):
+        ctx.evaluation(("dumpstruct-forms", compiled))
+        ctx.cell("dumpstruct:forms")
+        try:
+            cs = lib.load(text, "<", False, compiled)
+            data = b"\x02\x05" + bytes(range(0x41, 0x41 + 30))
+            outs = [dumpstruct(cs.s(data), color=False, output="string"), dumpstruct(cs.s, data, color=False, output="string"),
+                    dumpstruct(cs.s(data), color=True, output="string")]
+            for o in outs:
+                plain = ANSI.sub("", o)
+                if ref_hexdump(data) not in plain or not all(re.search(rf"^- {n}: ", plain, re.M) for n in ("e", "x", "pad")):
+                    ctx.violation("dumpstruct", "dumpstruct-does-not-list-every-field",
+                                  {"text": text, "got": plain, "workload": "dumpstruct-forms"})
+            if "\x1b" in outs[0] or "\x1b" in outs[1]:
+                ctx.violation("dumpstruct", "dumpstruct-without-colour-contains-colour-codes",
+                              {"text": text, "got": outs[0], "workload": "dumpstruct-forms"})
+            u = cs.U(b"\x01\x02\x03")
+            h = cs.holder(b"\x09\x01\x02\x03")
+            for member in (u.i, h.u.i):
+                o = ANSI.sub("", dumpstruct(member, color=False, output="string"))
+                if ref_hexdump(b"\x01\x02\x03") not in o or "- a: 0x1" not in o or "- b: 0x302" not in o:
+                    ctx.violation("dumpstruct", "dumpstruct-of-a-union-member-structure-differs",
+                                  {"text": text, "got": o, "workload": "dumpstruct-forms"})
+            ctx.event("dumpstruct_forms_checked")
+        except Exception as e:  # noqa: BLE001
+            ctx.violation("dumpstruct", f"dumpstruct-raises:{type(e).__name__}",
+                          {"text": text, "error": lib.exc_sig(e), "workload": "dumpstruct-forms"})
 
 
 def packs(ctx, rng, n):
@@ -252,12 +292,17 @@ def run(ctx):
     hexdumps(ctx, rng, 120 if not ctx.thorough else 3000)
     packs(ctx, rng, 1500 if not ctx.thorough else 40000)
     dumpstructs(ctx, 12 if not ctx.thorough else 300)
+    if ctx.shard == 0:
+        dumpstruct_forms(ctx)
 
 
 def replay(ctx, detail):
     print("record:", {k: v for k, v in detail.items() if k != "ast"})
     from dissect.cstruct import dumpstruct, hexdump
 
+    if detail.get("workload") == "dumpstruct-forms":
+        dumpstruct_forms(ctx)
+        return
     if "ast" in detail:
         case = engine.case_from_detail(detail)
         cs, err = engine.load_cfg(ctx, case, detail["cfg"])
